@@ -21,6 +21,7 @@ META = {
     "assumptions": ["cursor + small constant does not overflow SizeT", "by-reference parameters do not alias"],
 }
 META["explanation"] += " " + "(PR-forward) the public JSON::Parse overloads hand the caller's content and length on unchanged (Count(content) for the one-argument form)."
+META["explanation"] += " " + '(SIGN-unit) a raw code unit is ordered against a constant only where signed and unsigned units get the same answer (the UTF-8 build must not reject what the wide builds accept).'
 
 PARSER = "Qentem::JSON::JSONParser::"
 DESCENT = ("parseValue", "parseObject", "parseArray")
